@@ -386,6 +386,7 @@ func TestRecord(t *testing.T) {
 		}
 	}
 	res.Nontrivial = withRace
+	failureWatcherProbe(t, res)
 	res.AddExtra("trace_events", events)
 	res.AddExtra("traces_with_overlapping_calls", withRace)
 }
